@@ -33,6 +33,9 @@ class UserExc(Exception):
     (`UserExc(0).args == ('user0',)`), so pickle / YAML / copy rebuild it as UserExc('user0') with args ('useruser0',) — a
     property of that test class, not of plumpy.  This one is rebuilt from exactly its `args`."""
 
+    def __len__(self):          # a FALSY exception object (an aggregate error with no sub-errors): still the exception
+        return 0
+
     @property
     def n(self):
         return self.args[0]
@@ -53,6 +56,9 @@ CODEC_MARK = '__enc__'        # key added by the codec of half of the generated 
 
 class StepError(Exception):
     """raised by generated steps; `args` are exactly the constructor arguments, so pickle and YAML rebuild it"""
+
+    def __len__(self):          # a FALSY exception object (an aggregate error with no sub-errors): still the exception
+        return 0
 
 
 class PrefixLoader(loaders.DefaultObjectLoader):
